@@ -25,6 +25,7 @@ func init() {
 			{ID: "C16-R8", Doc: "GobEncode sends every argument exactly once, as given", Run: c16r8},
 			{ID: "C16-R9", Doc: "every travelling field of a decoded invocation comes from the stream (GobDecode assigns none of them)", Run: c16r9},
 			{ID: "C16-R10", Doc: "every struct type reachable from the transported invocation has only exported fields (gob skips the others silently)", Run: c16r10},
+			{ID: "C16-R11", Doc: "an invocation's arguments are rewritten for transport in a copy, not in the caller's slice", Run: c16r11},
 		},
 	})
 }
